@@ -939,6 +939,52 @@ func init() {
 			}
 		}, nil
 	}
+	// C10: three levels over profile 1 (the middle one has only the codec methods promoted from the profile-1 claims)
+	Scenarios["c10.three-levels-over-p1"] = func() (choice.Scenario, func() any) {
+		return func(c *choice.Ctx) {
+			a := genValidOpt(c, kindP1, false, true)
+			xi, err := buildBySetters(a)
+			if err != nil {
+				return
+			}
+			p1, ok := xi.(*psatoken.P1Claims)
+			if !ok {
+				return
+			}
+			m, tp := int64(5), "t"
+			o := OuterP1Claims{MidP1Claims: MidP1Claims{P1Claims: *p1}}
+			extra := map[int64]bool{}
+			if c.Choose("mid-claim", 2) == 0 {
+				o.Mid = &m
+				extra[-75800] = true
+			}
+			if c.Choose("top-claim", 2) == 0 {
+				o.Top = &tp
+				extra[-75801] = true
+			}
+			tag := fmt.Sprintf("P1:three-levels:mid=%v:top=%v", o.Mid != nil, o.Top != nil)
+			encStats.StateStr(tag + a.String())
+			enc, err := extEM.Marshal(o)
+			encStats.Trans.Add(1)
+			if err != nil {
+				c.Failf("C10:encode-error:"+tag, "%v", err)
+				return
+			}
+			c10Strict(c, encStats, a, enc, tag, map[int64]bool{-75800: true, -75801: true})
+			if n, perr := mcbor.DecodeAll(enc); perr == nil && n.K == mcbor.Map {
+				seen := map[int64]bool{}
+				for _, p := range n.Pairs {
+					k, _ := p[0].Int()
+					seen[k] = true
+				}
+				for _, k := range []int64{-75800, -75801} {
+					if seen[k] != extra[k] {
+						c.Failf(fmt.Sprintf("C10:added-claim:%s:%d", tag, k), "claim %d set=%v, in the map=%v", k, extra[k], seen[k])
+					}
+				}
+			}
+		}, nil
+	}
 	// C10/C11: the slice handed to SetSoftwareComponents stays the caller's: reusing it afterwards does not change what is
 	// encoded; for both instantiations of the generic container a claims-set can carry
 	Scenarios["c10.caller-reuses-list"] = func() (choice.Scenario, func() any) {
@@ -1671,6 +1717,7 @@ func init() {
 						exploreChoiceOpts(r, "c10.wrapper-claims", 2, dl, 1)
 						exploreChoiceOpts(r, "c10.plain-embedding-types", 2, dl, 1)
 						exploreChoiceOpts(r, "c10.wrapper-first-use", 1, dl, 1)
+						exploreChoice(r, "c10.three-levels-over-p1", 2, dl)
 						exploreChoice(r, "c10.caller-reuses-list", -1, dl)
 					}
 				}
